@@ -16,6 +16,8 @@ COMMON_ASSUMPTIONS = [
 
 
 def call_rule(fn, repo, sink, tier):
+    # class-level attribute values (shared by all instances of a class, see Interp.attr) live for one rule only
+    repo.__dict__.pop("_class_level_values", None)
     if "tier" in inspect.signature(fn).parameters:
         fn(repo, sink, tier=tier)
     else:
@@ -52,7 +54,7 @@ GRID = [("R31", grid.r31_memo), ("R32", grid.r32_gridsib), ("R32b", grid.r32b_in
         ("R33", grid.r33_mirror), ("R34", grid.r34_transdir), ("R19", grid.r19_taxis), ("R15g", data.r15g_gridcompat)]
 META = [("R15", data.r15_fields), ("R15c", data.r15c_copy_with), ("R16", data.r16_getinfo), ("R16u", data.r16u_delivered_units), ("R37", data.r37_masktable),
         ("R37e", data.r37e_masks_equal_layout), ("R37p", data.r37p_prepare_mask), ("R41", misc.r41_masktruth)]
-REGRID = [("R35", data.r35_regrid), ("R35b", misc.r35b_specside), ("R33c", data.r33c_compress)]
+REGRID = [("R35", data.r35_regrid), ("R35t", data.r35t_crs_direction), ("R35b", misc.r35b_specside), ("R33c", data.r33c_compress)]
 UNITS = [("R36", data.r36_units)]
 VALID = [("R38", valid.r38_valid)]
 STATIC = [("R39", buffer.r39_static), ("R40", link.r40_cbtime), ("R40c", link.r40c_shared_conduit), ("R14f", misc.r14_fresh)]
@@ -91,11 +93,11 @@ RULES = {
               ("R33", grid.r33_mirror), ("R15g", data.r15g_gridcompat)),
     "C15": _u(("R19", grid.r19_taxis), ("R33", grid.r33_mirror), ("R34", grid.r34_transdir), ("R15g", data.r15g_gridcompat),
               ("R32", grid.r32_gridsib), ("R18", link.r18_pullpath), ("R37e", data.r37e_masks_equal_layout), ("R39", buffer.r39_static),
-              ("R20", link.r20_target)),
+              ("R20", link.r20_target), ("R15c", data.r15c_copy_with), ("R15", data.r15_fields)),
     "C16": _u(REGRID, ("R32c", grid.r32c_cellcenters), ("R32", grid.r32_gridsib), ("R32b", grid.r32b_indexspace), ("R32d", grid.r32d_cellcorners),
               ("R41", misc.r41_masktruth), ("R37", data.r37_masktable), ("R16", data.r16_getinfo)),
     "C17": _u(UNITS, ("R18", link.r18_pullpath), ("R15", data.r15_fields), ("R16u", data.r16u_delivered_units), ("R24", spill2.r24s_format),
-              ("R40", link.r40_cbtime), ("R39", buffer.r39_static)),
+              ("R40", link.r40_cbtime), ("R39", buffer.r39_static), ("R17p", link.r17_pushpath)),
     "C18": _u(("R37", data.r37_masktable), ("R37e", data.r37e_masks_equal_layout), ("R37p", data.r37p_prepare_mask), ("R33c", data.r33c_compress), UNITS,
               ("R15", data.r15_fields), ("R41", misc.r41_masktruth)),
     "C19": _u(VALID, ("R06", life.r06_life), ("R20", link.r20_target)),
